@@ -19,7 +19,7 @@ from warnings import warn
 import pytest
 
 from vivarium.library.dict_utils import (
-    deep_merge, deep_merge_check, deep_copy_internal)
+    deep_merge, deep_merge_check, deep_copy_internal, _copy_nested_dicts)
 from vivarium.library.topology import assoc_path, get_in
 from vivarium.core.types import (
     HierarchyPath, Schema, State, Update,
@@ -136,7 +136,7 @@ class Process(metaclass=abc.ABCMeta):
         if '_schema' in self._parameters:
             # an override of its own: overrides merged in later must not
             # reach the other processes built from the same parameters
-            self._parameters['_schema'] = copy.deepcopy(
+            self._parameters['_schema'] = _copy_nested_dicts(
                 self._parameters['_schema'])
         self._schema_override: Schema = self._parameters.get('_schema', {})
         self._parallel = self._parameters.get('_parallel', False)
@@ -795,9 +795,10 @@ class ParallelProcess(Process):
                 'pending.')
         # (the command stays pending until its result has arrived: the
         # wait may be interrupted)
-        result = self.parent.recv()
+        data = self.parent.recv_bytes()
+        # The message is out of the pipe (unpickling it may still fail).
         self._pending_command = None
-        return result
+        return pickle.loads(data)
 
     def initial_state(self, config: Optional[dict] = None) -> State:
         return self.run_command('initial_state', (config,))
@@ -894,7 +895,9 @@ class ParallelProcess(Process):
                 self.send_command('end')
                 if self.profile:
                     stats = pstats.Stats()
-                    stats.stats = self.get_command_result()  # type: ignore
+                    # (read from the pipe itself: get_command_result
+                    # would hand out a result kept above first)
+                    stats.stats = self.parent.recv()  # type: ignore
                     assert self._stats_objs is not None
                     self._stats_objs.append(stats)
             except (BrokenPipeError, EOFError, ConnectionError):
